@@ -542,7 +542,8 @@ Proof.
   { intros b. apply kels_finish, kels_push_bool. reflexivity. }
   assert (Hge : kels s (finish_verify vf OErr)) by (apply kels_finish, kels_err).
   assert (Hgp : kels s (finish_verify vf OPanic)) by (apply kels_finish, kels_panic).
-  destruct (split_last full) as [[sg hb]|]; cbn [option_map]; [|apply Hg].
+  destruct (split_last full) as [[sg hb]|]; cbn [option_map];
+    [|destruct (negb (check_pubkey_enc c pk)); cbn [option_map]; [exact Hge|apply Hg]].
   destruct (negb (check_hash_type c (b2n hb))); cbn [option_map]; [exact Hge|].
   destruct (check_sig_enc c sg); cbn [option_map]; [|exact Hge|exact Hgp].
   destruct (negb (check_pubkey_enc c pk)); cbn [option_map]; [exact Hge|].
@@ -562,13 +563,13 @@ Lemma checkmultisig_kels orc t i c s idx vf :
 Proof.
   unfold checkmultisig_run.
   destruct (ds s) as [|nk d1]; [apply kels_err|].
-  destruct (pop_num c nk) as [nkz|]; [|apply kels_err]. cbv zeta.
+  destruct (pop_count c nk) as [nkz|]; [|apply kels_err]. cbv zeta.
   destruct (to_int32 nkz <? 0); [apply kels_err|].
   destruct (max_pubkeys c <? to_int32 nkz); [apply kels_err|].
   destruct (max_ops c <? nops s + to_int32 nkz); [apply kels_err|].
   destruct (pop_n (to_int32 nkz) d1) as [[pks d2]|]; [|apply kels_err].
   destruct d2 as [|ns d3]; [apply kels_err|].
-  destruct (pop_num c ns) as [nsz|]; [|apply kels_err].
+  destruct (pop_count c ns) as [nsz|]; [|apply kels_err].
   destruct (to_int32 nsz <? 0); [apply kels_err|].
   destruct (to_int32 nkz <? to_int32 nsz); [apply kels_err|].
   destruct (pop_n (to_int32 nsz) d3) as [[sigs d4]|]; [|apply kels_err].
